@@ -1257,7 +1257,8 @@ func (L *layouts) streamReader(fn *ssa.Function) *rsum {
 	}
 	c := &lctx{P: L.P, fn: fn, args: map[*ssa.Parameter]*bx{}, layout: L}
 	errBlocks := errorBranchBlocks(fn)
-	regions := map[ssa.Value]lpos{}          // Extract #0 of next(n) → base
+	regions := map[ssa.Value]lpos{} // Extract #0 of next(n) → base
+	regionLen := map[ssa.Value]lpos{}
 	payloads := map[ssa.Value]*bx{}          // destination slice value → bytes node
 	inlined := map[*ssa.Call]*rawRet{}       // sibling calls
 	consumedAt := map[*ssa.BasicBlock]lpos{} // running total at block entry
@@ -1296,6 +1297,13 @@ func (L *layouts) streamReader(fn *ssa.Function) *rsum {
 		if e, ok := payloads[v]; ok {
 			return e
 		}
+		// a whole region of wire-determined length used as a value (zero-copy string/binary)
+		if bp, ok := regions[v]; ok {
+			if n := regionLen[v]; n.c == 0 && len(n.syms) == 1 {
+				p := bp
+				return &bx{op: "bytes", p: &p, a: n.syms[0]}
+			}
+		}
 		return nil
 	}
 	// walk the dominator tree, threading the running position; at a join the
@@ -1319,6 +1327,7 @@ func (L *layouts) streamReader(fn *ssa.Function) *rsum {
 				for _, r := range *call.Referrers() {
 					if ex, ok := r.(*ssa.Extract); ok && ex.Index == 0 {
 						regions[ex] = running
+						regionLen[ex] = n
 					}
 				}
 				running = running.add(n)
